@@ -255,10 +255,11 @@ def rule_remove_idx(ctx, crate, rule="R-MULTI-REMOVE"):
     guard_true = []
     effect_bbs = {c.bb for c in b.calls(r"std::vec::Vec::<T, A>::(push|retain|insert|remove)", r"std::ops::IndexMut::index_mut")}
     for sb, t in b.switches():
-        sl = b.slice(t["op"], at=sb)
-        if not sl.has_field("free_set", MS):
+        # (the test may be a flag computed by a search loop: `let mut already_free = false; for &f in &self.free_set { if f == idx {..} }`)
+        sls = K.cond_slices(b, sb)
+        if not any(sl.has_field("free_set", MS) for sl in sls):
             continue
-        uses_idx = 2 in sl.params() or any(a[0] == "closure" for a in sl.atoms)
+        uses_idx = any(2 in sl.params() or any(a[0] == "closure" for a in sl.atoms) for sl in sls)
         if any(sb in b.reach_after(e) or sb == e for e in effect_bbs):
             continue  # only an entry guard (evaluated before any effect) can make the call a no-op
         for x in b.succ(sb):
@@ -406,9 +407,15 @@ def rule_head_only_reap(ctx, crate, rule="R-MULTI-HEAD-REAP"):
             ctx.ok(rule, "stop-at-first-live", b.name, c.loc(), "take_while stops at the first non-zombie", cfg)
             continue
         ok = any(b.edge_dominates((sb, nz), c.bb) for sb, z, nz in zsw)
+        ok2 = all(c.bb not in b.reach([z]) for sb, z, nz in zsw)
+        if not (ok and ok2) and zsw:
+            # the answer of the test may travel as a locally built verdict (`match Self::head_member(..) { Zombie(n) => n, Alive => break }`):
+            # on the paths through the "not a zombie" edge the verdict folds
+            folded = [K.reach_through_edge(b, (sb, z), crate, want_avoid=True) for sb, z, nz in zsw]
+            ok = all(c.bb not in R_ for R_, A_ in folded)
+            ok2 = all(sb not in b.reach([z], avoid_edges=A_) for (sb, z, nz), (R_, A_) in zip(zsw, folded))
         ctx.check(ok, rule, "reap-only-zombies", b.name, c.loc(), "only zombie members are recorded for reaping",
                   "a live member can be recorded for reaping", cfg)
-        ok2 = all(c.bb not in b.reach([z]) for sb, z, nz in zsw)
         ctx.check(ok2, rule, "stop-at-first-live", b.name, c.loc(), "the reap loop stops at the first non-zombie (only head zombies leave the frame)",
                   "the reap loop continues past a live member: a zombie in the middle is released from the erase count while rows above it are still redrawn", cfg)
     # mark_zombie reaps immediately only if the bar is first in `ordering`
